@@ -950,6 +950,7 @@ SPBR_STRUCT = dict(lean="SparseBuilderR", ctor=lambda v: "(⟨%s, %s, %s, %s, %s
                    fields={"data": ("N", "SparseVector"), "high": RV, "len": U, "next": U, "increment": U}, fieldmap={})
 CONSTR3_CALLS = {
     "RawVector::default": dict(lean="RawVec.empty", ret=RV, monadic=False),
+    "self.clone": dict(lean="v", ret=RV, monadic=False),
     "RawVector::new": dict(lean="gen_RawVector_new m", ret=RV),
     "RawVector::with_len": dict(lean="gen_RawVector_with_len m {0} {1}", ret=RV, args=[U, B]),
     "bits::filler_value": dict(lean="gen_filler_value m {0}", ret=W, args=[B]),
@@ -968,6 +969,8 @@ GROUPS.append(("FnsConstr3.lean", ["Sds.Model.GenStructs", "Sds.Generated.FnsVec
                                    "Sds.Generated.FnsBuild", "Sds.Generated.FnsEnable"], [
     dict(file="raw_vector.rs", impl=r"impl RawVector\b", fn="new", name="gen_RawVector_new", calls=CONSTR3_CALLS),
     dict(file="raw_vector.rs", impl=r"impl RawVector\b", fn="with_len", name="gen_RawVector_with_len", calls=CONSTR3_CALLS),
+    dict(file="raw_vector.rs", impl=r"impl RawVector\b", fn="complement", name="gen_RawVector_complement", calls=CONSTR3_CALLS,
+         self=dict(lean="RawVec", var="v", rust="RawVector", mut=False, fields={"len": ("len", U), "data": ("data", A)}, order=["len", "data"])),
     dict(file="bit_vector.rs", impl=r"impl From<RawVector> for BitVector\b", fn="from", name="gen_BitVector_from_raw", calls=CONSTR3_CALLS,
          tyalias={"Self": BV}),
     dict(file="sparse_vector.rs", impl=r"impl SparseBuilder\b", fn="get_params", name="gen_SparseBuilder_get_params", calls=CONSTR3_CALLS,
@@ -981,6 +984,72 @@ GROUPS.append(("FnsConstr3.lean", ["Sds.Model.GenStructs", "Sds.Generated.FnsVec
          binders=["(fw : Nat)"], structs_over={"SparseBuilder": SPBR_STRUCT}, ret=SPBR),
     dict(file="sparse_vector.rs", impl=r"impl TryFrom<SparseBuilder> for SparseVector\b", fn="try_from", name="gen_SparseVector_try_from", calls=CONSTR3_CALLS,
          structs_over={"SparseBuilder": SPBR_STRUCT}, tyalias={"Self": ("N", "SparseVector")}, ret=("N", "SparseVector")),
+]))
+
+
+# ---- constructions, part 4: the run-length vector from its builder — `RLBuilder::{default, encode}`, `IntVector::with_capacity`,
+# `RawVector::with_capacity`, `impl From<RLBuilder> for RLVector` (flush, the three sample indexes over `samples.iter().map(..)`
+# — each the list of its items —, the compressed samples)
+STRUCTS["RLBuilder"] = dict(lean="RLBuilder", ctor=lambda v: "(⟨%s, %s, %s, %s, %s, %s⟩ : RLBuilder)" % (v["len"], v["ones"], v["tail"], v["run"], v["samples"], v["data"]),
+                            fields={"len": U, "ones": U, "tail": U, "run": ("T", [U, U]), "samples": PAIRS, "data": IV}, fieldmap={})
+RLVEC_STRUCT = dict(lean="RL", ctor=lambda v: "(⟨%s, %s, %s, %s, %s, %s, %s⟩ : RL)" % (v["len"], v["ones"], v["rank_index"], v["select_index"], v["select_zero_index"], v["samples"], v["data"]),
+                    fields={"len": U, "ones": U, "rank_index": ("N", "SampleIndex"), "select_index": ("N", "SampleIndex"),
+                            "select_zero_index": ("N", "SampleIndex"), "samples": IV, "data": IV}, fieldmap={})
+CONSTR4_CALLS = {
+    "bits::bits_to_words": dict(lean="gen_bits_to_words m {0}", ret=U, args=[U]),
+    "Vec::with_capacity": dict(lean="(#[] : Array Word)", ret=A, monadic=False, args=[U]),
+    "Vec::new": dict(lean="(#[] : Array (Nat × Nat))", ret=PAIRS, monadic=False),
+    "RawVector::with_capacity": dict(lean="gen_RawVector_with_capacity m {0}", ret=RV, args=[U]),
+    "IntVector::with_capacity": dict(lean="gen_IntVector_with_capacity m {0} {1}", ret=IV, result=True, args=[U, U]),
+    "IntVector::new": dict(lean="gen_IntVector_new m {0}", ret=IV, result=True, args=[U]),
+    "self.data.push": dict(lean="gen_IntVector_push m self_data {0}", ret=UNIT, setvar="self_data", args=[W]),
+    "<RLBuilder>.flush": dict(lean="gen_RLBuilder_flush m {0}", ret=UNIT, mutrecv=True, monadic=True),
+    "<RLBuilder>.len": dict(lean="{0}.len", ret=U, monadic=False),
+    "<RLBuilder>.count_ones": dict(lean="{0}.ones", ret=U, monadic=False),
+    "<RLBuilder>.count_zeros": dict(lean="gen_RLBuilder_count_zeros m {0}", ret=U),
+    "<RLBuilder>.blocks": dict(lean="{0}.samples.size", ret=U, monadic=False),
+    "<SamplePairs>.last": dict(lean="{0}.back?", ret=("O", ("T", [U, U])), monadic=False),
+    "SampleIndex::new": dict(lean="gen_SampleIndex_new m {0} {1}", ret=("N", "SampleIndex"), args=[LISTIT, U]),
+    "<IntVector>.push": dict(lean="gen_IntVector_push m {0} {1}", ret=UNIT, mutrecv=True, monadic=True, args=[W]),
+    "RLBuilder::default": dict(lean="gen_RLBuilder_default m", ret=("N", "RLBuilder")),
+}
+GROUPS.append(("FnsConstr4.lean", ["Sds.Model.RL", "Sds.Generated.FnsVec", "Sds.Generated.FnsVec2", "Sds.Generated.FnsBuild", "Sds.Generated.FnsConstr"], [
+    dict(file="raw_vector.rs", impl=r"impl RawVector\b", fn="with_capacity", name="gen_RawVector_with_capacity", calls=CONSTR4_CALLS),
+    dict(file="int_vector.rs", impl=r"impl IntVector\b", fn="with_capacity", name="gen_IntVector_with_capacity", calls=CONSTR4_CALLS),
+    dict(file="rl_vector.rs", impl=r"impl RLBuilder\b", fn="encode", name="gen_RLBuilder_encode", self=dict(RLB_SELF, mut=True), calls=CONSTR4_CALLS,
+         fuel=["23"]),
+    dict(file="rl_vector.rs", impl=r"impl Default for RLBuilder\b", fn="default", name="gen_RLBuilder_default", calls=CONSTR4_CALLS,
+         tyalias={"Self": ("N", "RLBuilder")}),
+    dict(file="rl_vector.rs", impl=r"impl RLBuilder\b", fn="new", name="gen_RLBuilder_new", calls=CONSTR4_CALLS, tyalias={"Self": ("N", "RLBuilder")}),
+    dict(file="rl_vector.rs", impl=r"impl From<RLBuilder> for RLVector\b", fn="from", name="gen_RLVector_from_builder", calls=CONSTR4_CALLS,
+         structs_over={"RLVector": RLVEC_STRUCT}, tyalias={"Self": RLV_T}, ret=RLV_T),
+]))
+
+
+# ---- constructions, part 5: the wavelet-matrix core from a vector of values — the `macro_rules! wm_core_from` body
+# instantiated at `u64` (the five instances differ only in the item type), and `WMCore::init_support` (an `iter_mut()` loop)
+BVARR = ("N", "BvArray")
+STRUCTS["BvArray"] = dict(lean="(Array BitVector)", ctor=None, fields={}, fieldmap={})
+WMCORE_STRUCT = dict(lean="WMCore", ctor=lambda v: "(⟨%s⟩ : WMCore)" % v["levels"], fields={"levels": BVARR}, fieldmap={})
+CONSTR5_CALLS = {
+    "source.iter.cloned.max": dict(lean="arrMaxW source", ret=("O", W), monadic=False),
+    "Vec::new": dict(lean="(#[] : {{ty}})", ret="HINT", monadic=False),
+    "RawVector::with_capacity": dict(lean="gen_RawVector_with_capacity m {0}", ret=RV, args=[U]),
+    "<RawVector>.push_bit": dict(lean="gen_RawVector_push_bit m {0} {1}", ret=UNIT, mutrecv=True, monadic=True, args=[B]),
+    "BitVector::from": dict(lean="gen_BitVector_from_raw m {0}", ret=BV, args=[RV]),
+    "<BvArray>.push": dict(lean="{0}.push {1}", ret=UNIT, mutrecv=True, args=[BV]),
+    "<WMCore>.init_support": dict(lean="gen_WMCore_init_support m {0}", ret=UNIT, mutrecv=True, monadic=True),
+    "<BitVector>.enable_rank": dict(lean="gen_BitVector_enable_rank m {0}", ret=UNIT, mutrecv=True, monadic=True),
+    "<BitVector>.enable_select": dict(lean="gen_BitVector_enable_select m {0}", ret=UNIT, mutrecv=True, monadic=True),
+    "<BitVector>.enable_select_zero": dict(lean="gen_BitVector_enable_select_zero m {0}", ret=UNIT, mutrecv=True, monadic=True),
+    "<BitVector>.enable_pred_succ": dict(lean="gen_BitVector_enable_pred_succ m {0}", ret=UNIT, mutrecv=True, monadic=True),
+}
+GROUPS.append(("FnsConstr5.lean", ["Sds.Model.WM", "Sds.Generated.FnsVec", "Sds.Generated.FnsEnable", "Sds.Generated.FnsConstr3", "Sds.Generated.FnsConstr4"], [
+    dict(file="wavelet_matrix/wm_core.rs", impl=r"impl WMCore\b", fn="init_support", name="gen_WMCore_init_support", calls=CONSTR5_CALLS,
+         self=dict(lean="WMCore", var="c", rust="WMCore", mut=True, fields={"levels": ("levels", BVARR)}, order=["levels"]),
+         structs_over={"WMCore": WMCORE_STRUCT}),
+    dict(file="wavelet_matrix/wm_core.rs", impl=r"impl From<Vec<u64>> for WMCore\b", fn="from", name="gen_WMCore_from_u64", calls=CONSTR5_CALLS,
+         macro_subst={"$t": "u64"}, structs_over={"WMCore": WMCORE_STRUCT}, tyalias={"Self": ("N", "WMCore")}, ret=("N", "WMCore")),
 ]))
 
 
